@@ -437,6 +437,29 @@ def scenarios(tmp, rnd, stats, violations, tier):
     if txt != want:
         bad("C18", case, {"stdout": txt[:300], "expected_pages": want[:120]})
     n += 1
+    # --- S6 (C12/C14): the default prefix is the NAME of the input directory however the directory is spelled
+    s6 = os.path.join(tmp, "s6", "projdir")
+    os.makedirs(os.path.join(s6, "sub"))
+    for f in ("a.cmake", "sub/b.cmake"):
+        with open(os.path.join(s6, f), "w") as fh:
+            fh.write(CMAKE_BODY.format(name=f.replace("/", "_").replace(".", "_")))
+    os.makedirs(os.path.join(os.path.dirname(s6), "other"))
+    for spelled, cwd in ((".", s6), ("projdir/", os.path.dirname(s6)), ("../projdir", os.path.join(os.path.dirname(s6), "other")),
+                         (os.path.join(s6, ""), tmp), ("./projdir/.", os.path.dirname(s6))):
+        case = {"driver": "tree", "scenario": "S6 default prefix", "input": spelled}
+        o6 = os.path.join(tmp, "s6_out")
+        shutil.rmtree(o6, ignore_errors=True)
+        stats.current_case = case
+        run_main(["-s", cfg, "-r", "-o", o6, spelled], cwd=cwd)
+        for page, want_title in (("index.rst", "projdir"), ("a.rst", "projdir.a"), (os.path.join("sub", "b.rst"), "projdir.sub/b"),
+                                 (os.path.join("sub", "index.rst"), "projdir.sub")):
+            try:
+                got_title = open(os.path.join(o6, page)).read().split("\n")[2]
+            except (OSError, IndexError):
+                got_title = None
+            if got_title != want_title:
+                bad("C14" if page.endswith("index.rst") else "C12", case, {"page": page, "title": got_title, "want": want_title})
+        n += 1
     stats.current_case = None
     return n
 
